@@ -1686,7 +1686,18 @@ func translateFnCall(repo, leanDir, hdr string) int {
 	b.WriteString(fnGivenDoc())
 	b.WriteString("import CtyModel.FnGo\nset_option linter.unusedVariables false\nnamespace CtyModel.Generated.FnCall\n\n")
 	b.WriteString(strings.Join(t.out, "\n"))
-	b.WriteString("\n" + fnAliases + "\nend CtyModel.Generated.FnCall\n")
+	b.WriteString("\n" + fnAliases)
+	// The wrappers are outside the translated fragment (Proxy returns a closure, Unpredictable copies a struct): their
+	// bodies are handed over as whitespace-normalised source text and pinned by `C10.wrappers_source_pinned`.
+	fdir := parseDir(filepath.Join(repo, "cty/function"))
+	for _, w := range [][2]string{{"Proxy", "proxyBody"}, {"Unpredictable", "unpredictableBody"}, {"unpredictableImpl", "unpredictableImplBody"}} {
+		fd := findFunc(fdir, w[0])
+		if fd == nil || fd.Body == nil {
+			die("translate: %s not found in cty/function", w[0])
+		}
+		fmt.Fprintf(&b, "\n/-- body of `%s` in cty/function (whitespace-normalised source text) -/\ndef %s : String := %s\n", w[0], w[1], leanStr(strings.Join(strings.Fields(src(fd.Body)), " ")))
+	}
+	b.WriteString("\nend CtyModel.Generated.FnCall\n")
 	writeIfChanged(filepath.Join(leanDir, "FnCall.lean"), b.String())
 	return len(t.out)
 }
